@@ -677,6 +677,25 @@ func (x *Exec) evalCall(st *State, fr *Frame, e ECall, sc *scope) (Val, error) {
 			return Val{}, fmt.Errorf("aserror(): static type unknown")
 		}
 		return x.makeIface(st, args[0], args[0].Typ, types.Universe.Lookup("error").Type()), nil
+	case "has":
+		// has(m, k): key k is present in map m
+		if args[0].Typ != nil {
+			if mt, ok := args[0].Typ.Underlying().(*types.Map); ok {
+				ks := x.S.SortOf(mt.Key())
+				dn, ds := "MD."+ks, ArraySort(SRef, ArraySort(ks, SBool))
+				return Val{T: Select(Select(heapArrIn(x, x.heapFor(st, sc), dn, ds), args[0].T), args[1].T)}, nil
+			}
+		}
+		return Val{}, fmt.Errorf("has(): first argument is not a map")
+	case "bech32val", "bech32acc":
+		// the String() rendering of a validator / account address (same symbol as the native model)
+		fn := "bech32." + e.Fun[6:]
+		x.D.DeclareFun(fn, []string{SBytes}, SStr)
+		b := args[0].T
+		if b.Sort == SSlice {
+			b = x.bytesOfIn(x.heapFor(st, sc), b)
+		}
+		return Val{T: App(SStr, fn, b)}, nil
 	case "payload":
 		// payload(x): the statically known dynamic value inside an interface value
 		if args[0].T.Sort == SIface && args[0].Dyn != nil {
@@ -696,7 +715,9 @@ func (x *Exec) evalCall(st *State, fr *Frame, e ECall, sc *scope) (Val, error) {
 					return v, nil
 				}
 			}
-			return Val{}, fmt.Errorf("lastret: no call to %s on this path", lit.V)
+			// no such call on this path: an arbitrary value (sound: unconstrained); typed as an
+			// interface value because lastret is used on error results
+			return Val{T: x.D.Fresh("lastret.none", SIface)}, nil
 		}
 		return Val{}, fmt.Errorf("lastret needs a string literal")
 	case "ncalls":
